@@ -66,6 +66,11 @@ pri func thing.first() base.u8 {
     return this.buf[0]
 }
 
+pri func thing.take!() base.u8 {
+    this.f1 = this.f1 ~mod+ 3
+    return this.f1
+}
+
 pri func thing.nap?() {
     yield? base."$short read"
 }
@@ -280,8 +285,10 @@ func (g *flowGen) invalidator() (kind, line string) {
 			return "op-assign", g.pick("x", "c", "y", "this.f0") + " " + g.pick("+=", "-=") + " " + g.pick("1", "2", "1")
 		case 4, 5:
 			return "store-field", g.pick("this.f0 = "+g.exprU32(), "this.f1 = "+g.exprU8())
-		case 6, 7:
+		case 6:
 			return "call-impure", g.pick("this.poke!(v: "+g.exprU8()+")", "this.bump!()", "this.fill!(v: "+g.exprU8()+")")
+		case 7:
+			return "assign-from-impure-call", g.pick("y = this.take!()", "this.f1 = this.take!()")
 		case 8, 9:
 			return "yield", `yield? base."$short read"`
 		}
@@ -315,7 +322,7 @@ func (g *flowGen) invalidator() (kind, line string) {
 	case 13:
 		return "assign-from-io", g.pick("y = args.src.peek_u8()", "x = args.src.peek_u16le_as_u32()", "y = args.src.peek_undo_byte()")
 	case 14:
-		return "assign-from-call", g.pick("y = this.get()", "y = this.first()")
+		return "assign-from-call", g.pick("y = this.get()", "y = this.first()", "y = this.take!()")
 	case 15:
 		return "assign-length", g.pick("c = (args.data.length() & 15) as base.u32", "c = (s.length() & 15) as base.u32", "c = (args.src.length() & 15) as base.u32")
 	case 16, 17:
@@ -462,17 +469,35 @@ func (g *flowGen) block(depth, budget int) {
 			// a loop: the situation is reset to the invariants; jumps must re-prove them
 			la, lop, lk := g.loopAtom(), g.pick("<", "<=", "<>", ">", ">="), g.anyConst()
 			head := "while " + la + " " + lop + " " + lk
-			if g.rd.Chance(1, 4) {
+			counter := ""
+			switch {
+			case g.rd.Chance(3, 5):
+				// a counting loop: `v = 0; while v < K, inv v <= K [, post v >= K] { …; v += 1 }`
+				la, lop, lk = g.pick("x", "c", "y"), "<", g.pick("3", "4", "5", "7")
+				if !g.try("assign-local", la+" = 0") {
+					break
+				}
+				counter = la
+				head = "while " + la + " < " + lk + ", inv " + la + " <= " + lk
+				if g.rd.Chance(1, 2) {
+					head += ", post " + la + " >= " + lk
+				}
+			case g.rd.Chance(1, 3):
 				head = "while " + g.cond()
 				lop = ""
+				if g.rd.Chance(1, 2) {
+					head += ", inv " + g.cond()
+				}
+			default:
+				if g.rd.Chance(2, 3) {
+					head += ", inv " + g.pick(la+" "+g.pick("<=", "<", ">=", "<>")+" "+g.anyConst(), g.cond())
+				}
+				if g.rd.Chance(1, 3) {
+					head += ", post " + la + " " + flowInverseRel[lop] + " " + lk
+				}
 			}
-			inv := ""
-			if g.rd.Chance(2, 3) {
-				inv = g.pick(la+" "+g.pick("<=", "<", ">=", "<>")+" "+g.anyConst(), g.cond())
-				head += ", inv " + inv
-			}
-			if lop != "" && g.rd.Chance(1, 3) {
-				head += ", post " + la + " " + flowInverseRel[lop] + " " + lk
+			if strings.Contains(head, ", inv ") || strings.Contains(head, ", post ") {
+				head += "," // the assertion list of a loop ends with a comma
 			}
 			if g.try("while", head+" {") {
 				for j := g.rd.Range(0, 2); j > 0; j-- {
@@ -498,6 +523,9 @@ func (g *flowGen) block(depth, budget int) {
 				}
 				if g.rd.Chance(1, 3) {
 					g.try("break", "break")
+				}
+				if counter != "" {
+					g.try("op-assign", counter+" += 1")
 				}
 				// the body must be closable (invariant provable at the implicit continue)
 				if !g.accepts("}") {
